@@ -64,11 +64,20 @@ func (f *Dox) Call(s *slip.Scope, args slip.List, depth int) (result slip.Object
 	slip.CheckArgCount(s, depth, f, args, 2, -1)
 	ns := s.NewScope()
 	d2 := depth + 1
-	steps, test, rforms := setupDo(ns, ns, args, d2)
+	steps, test, rforms, exit := setupDo(ns, ns, args, d2)
+	if exit != nil {
+		return loopExit(exit)
+	}
 	for {
-		if ns.Eval(test, d2) != nil {
+		tv := ns.Eval(test, d2)
+		if slip.IsExit(tv) {
+			return loopExit(tv)
+		}
+		if tv != nil {
 			for _, rf := range rforms {
-				result = ns.Eval(rf, d2)
+				if result = ns.Eval(rf, d2); slip.IsExit(result) {
+					return loopExit(result)
+				}
 			}
 			break
 		}
@@ -96,7 +105,11 @@ func (f *Dox) Call(s *slip.Scope, args slip.List, depth int) (result slip.Object
 		}
 		for _, sb := range steps {
 			if !sb.noStep {
-				ns.UnsafeLet(sb.sym, ns.Eval(sb.step, d2))
+				v := ns.Eval(sb.step, d2)
+				if slip.IsExit(v) {
+					return loopExit(v)
+				}
+				ns.UnsafeLet(sb.sym, v)
 			}
 		}
 	}
